@@ -6,6 +6,6 @@ cd /verif
 R=$(mktemp -d /var/tmp/seedrepo.XXXXXX); trap 'rm -rf $R' EXIT
 cp -a /repo/. $R/ && git -C $R checkout -q -- . 
 git -C $R apply "$P" || { echo "patch does not apply"; exit 2; }
-out=$(VERIF_REPO=$R ./check $PROP $TIER 2>&1); rc=$?
+out=$(VERIF_REPO=$R VERIF_EVIDENCE_DIR=$R/.verif-evidence ./check $PROP $TIER 2>&1); rc=$?
 echo "$out" | grep -E 'VIOLATION|KNOWN|BROKEN|BUILD' | head -3 | cut -c1-220
 case $rc in 0) echo "MISSED $PROP $P";; 1) echo "DETECTED $PROP $P";; *) echo "BROKEN($rc) $PROP $P"; echo "$out" | tail -5 | cut -c1-300;; esac
